@@ -25,10 +25,51 @@ package simplewlru
 //@ spec lwt(c *Cache, k interface{}) int = ent(c.items[k]).weight
 //@ // inlist(c, e): e is an element of the eviction list at the position it claims
 //@ spec inlist(c *Cache, e *list.Element) bool = e != nil && lown[e] == c.evictList && 0 <= lidx[e] && lidx[e] < llen[c.evictList] && lel[c.evictList][lidx[e]] == e
+//@ // wsumH(a, vals, w, n): total weight of the entries of the elements a[0..n), where vals is the memory of
+//@ // Element.Value and w the memory of entry.weight (memory passed explicitly so that lemmas can relate two memories)
+//@ spec wsumH(a [1]*list.Element, vals [1]interface{}, w [1]uint, n int) int = ite(n <= 0, 0, wsumH(a, vals, w, n-1) + w[unbox(vals[a[n-1]], "*entry")])
+//@ spec wsum(c *Cache) int = wsumH(lel[c.evictList], heapof(all(list.Element).Value), heapof(all(entry).weight), llen[c.evictList])
+//@ lemma wsum_ext(a [1]*list.Element, b [1]*list.Element, vals [1]interface{}, w [1]uint, n int) by induction(n)
+//@   requires forall(i, 0, n, a[i] == b[i])
+//@   ensures  wsumH(a, vals, w, n) == wsumH(b, vals, w, n)
+//@ lemma wsum_nonneg(a [1]*list.Element, vals [1]interface{}, w [1]uint, n int) by induction(n)
+//@   requires forall(i, 0, n, w[unbox(vals[a[i]], "*entry")] >= 0)
+//@   ensures  wsumH(a, vals, w, n) >= 0 && forall(k, 0, n, wsumH(a, vals, w, n) >= w[unbox(vals[a[k]], "*entry")])
+//@ lemma wsum_remove(a [1]*list.Element, b [1]*list.Element, vals [1]interface{}, w [1]uint, n int, k int) by induction(n) { use wsum_ext(a, b, vals, w, n - 1) }
+//@   requires 0 <= k && k < n && forall(i, 0, k, b[i] == a[i]) && forall(i, k, n - 1, b[i] == a[i + 1])
+//@   ensures  wsumH(b, vals, w, n - 1) == wsumH(a, vals, w, n) - w[unbox(vals[a[k]], "*entry")]
+//@ lemma wsum_push(a [1]*list.Element, b [1]*list.Element, vals [1]interface{}, w [1]uint, n int) by induction(n)
+//@   requires n >= 0 && forall(i, 0, n, b[i + 1] == a[i])
+//@   ensures  wsumH(b, vals, w, n + 1) == wsumH(a, vals, w, n) + w[unbox(vals[b[0]], "*entry")]
+//@ lemma wsum_move(a [1]*list.Element, b [1]*list.Element, vals [1]interface{}, w [1]uint, n int, k int) by induction(n) { use wsum_push(a, b, vals, w, n - 1) }
+//@   requires 0 <= k && k < n && b[0] == a[k] && forall(i, 0, k, b[i + 1] == a[i]) && forall(i, k + 1, n, b[i] == a[i])
+//@   ensures  wsumH(b, vals, w, n) == wsumH(a, vals, w, n)
+//@ // the sum depends only on the memory of the elements and entries it ranges over
+//@ lemma wsum_frame(a [1]*list.Element, vals [1]interface{}, vals2 [1]interface{}, w [1]uint, w2 [1]uint, n int) by induction(n)
+//@   requires forall(i, 0, n, vals2[a[i]] == vals[a[i]] && w2[unbox(vals[a[i]], "*entry")] == w[unbox(vals[a[i]], "*entry")])
+//@   ensures  wsumH(a, vals2, w2, n) == wsumH(a, vals, w, n)
+//@ lemma wsum_upd(a [1]*list.Element, vals [1]interface{}, w [1]uint, n int, p *entry, x int) by induction(n)
+//@   requires n >= 1 && unbox(vals[a[0]], "*entry") == p && forall(i, 1, n, unbox(vals[a[i]], "*entry") != p)
+//@   ensures  wsumH(a, vals, w[p := x], n) == wsumH(a, vals, w, n) - w[p] + x
+//@ // wsumV: as wsumH, but only over the entries whose key is not in the set vis (used for Purge, which walks the map)
+//@ spec wsumV(a [1]*list.Element, vals [1]interface{}, ks [1]interface{}, w [1]uint, vis [1]bool, n int) int = ite(n <= 0, 0, wsumV(a, vals, ks, w, vis, n-1) + ite(vis[ks[unbox(vals[a[n-1]], "*entry")]], 0, w[unbox(vals[a[n-1]], "*entry")]))
+//@ lemma wsumV_none(a [1]*list.Element, vals [1]interface{}, ks [1]interface{}, w [1]uint, vis [1]bool, n int) by induction(n)
+//@   requires forall(i, 0, n, !vis[ks[unbox(vals[a[i]], "*entry")]])
+//@   ensures  wsumV(a, vals, ks, w, vis, n) == wsumH(a, vals, w, n)
+//@ lemma wsumV_all(a [1]*list.Element, vals [1]interface{}, ks [1]interface{}, w [1]uint, vis [1]bool, n int) by induction(n)
+//@   requires forall(i, 0, n, vis[ks[unbox(vals[a[i]], "*entry")]])
+//@   ensures  wsumV(a, vals, ks, w, vis, n) == 0
+//@ lemma wsumV_nonneg(a [1]*list.Element, vals [1]interface{}, ks [1]interface{}, w [1]uint, vis [1]bool, n int) by induction(n)
+//@   requires forall(i, 0, n, w[unbox(vals[a[i]], "*entry")] >= 0)
+//@   ensures  wsumV(a, vals, ks, w, vis, n) >= 0 && forall(k, 0, n, !vis[ks[unbox(vals[a[k]], "*entry")]] ==> wsumV(a, vals, ks, w, vis, n) >= w[unbox(vals[a[k]], "*entry")])
+//@ lemma wsumV_visit(a [1]*list.Element, vals [1]interface{}, ks [1]interface{}, w [1]uint, vis [1]bool, n int, j int) by induction(n)
+//@   requires 0 <= j && !vis[ks[unbox(vals[a[j]], "*entry")]] && forall(i, 0, n, i != j ==> ks[unbox(vals[a[i]], "*entry")] != ks[unbox(vals[a[j]], "*entry")])
+//@   ensures  wsumV(a, vals, ks, w, vis[ks[unbox(vals[a[j]], "*entry")] := true], n) == wsumV(a, vals, ks, w, vis, n) - ite(j < n, w[unbox(vals[a[j]], "*entry")], 0)
 //@ // representation invariant: items and the eviction list hold the same entries, each under its own key
 //@ inv Cache cinv(c): c != nil && c.evictList != nil && c.items != nil && lwf(c.evictList) && len(c.items) == llen[c.evictList] &&
 //@   forall(k interface{}, has(c.items, k) ==> inlist(c, c.items[k]) && typeis(c.items[k].Value, "*entry") && ent(c.items[k]) != nil && ent(c.items[k]).key == k) &&
-//@   forall(i, 0, llen[c.evictList], typeis(lel[c.evictList][i].Value, "*entry") && ent(lel[c.evictList][i]) != nil && has(c.items, ent(lel[c.evictList][i]).key) && c.items[ent(lel[c.evictList][i]).key] == lel[c.evictList][i])
+//@   forall(i, 0, llen[c.evictList], typeis(lel[c.evictList][i].Value, "*entry") && ent(lel[c.evictList][i]) != nil && has(c.items, ent(lel[c.evictList][i]).key) && c.items[ent(lel[c.evictList][i]).key] == lel[c.evictList][i] && ent(lel[c.evictList][i]).weight >= 0) &&
+//@   c.weight == wsum(c)
 //@
 //@ func (*Cache).Contains
 //@   requires cinv(c)
@@ -55,11 +96,12 @@ package simplewlru
 //@ func (*Cache).removeElement
 //@   requires cinv(c) && inlist(c, e)
 //@   modifies c.items[ent(e).key], c.weight, lel[c.evictList], llen[c.evictList], lidx[*], lown[e], nEvict, gEvictKey, gEvictVal
+//@   hint use wsum_remove(old(lel[c.evictList]), lel[c.evictList], heapof(all(list.Element).Value), heapof(all(entry).weight), old(llen[c.evictList]), old(lidx[e])); use wsum_nonneg(old(lel[c.evictList]), heapof(all(list.Element).Value), heapof(all(entry).weight), old(llen[c.evictList]))
 //@   ensures  [gone] !lhas(c, old(ent(e).key)) && len(c.items) == old(len(c.items)) - 1
 //@   ensures  [inv] cinv(c)
 //@   ensures  [others] forall(k interface{}, k != old(ent(e).key) ==> lhas(c, k) == old(lhas(c, k)) && c.items[k] == old(c.items[k]))
 //@   ensures  [order] forall(i, 0, old(lidx[e]), lel[c.evictList][i] == old(lel[c.evictList][i])) && forall(i, old(lidx[e]), llen[c.evictList], lel[c.evictList][i] == old(lel[c.evictList][i + 1]))
-//@   ensures  [weight] c.weight == (old(c.weight) - ent(e).weight) % 18446744073709551616
+//@   ensures  [weight] c.weight == old(c.weight) - ent(e).weight
 //@   ensures  [evict] c.onEvict != nil ==> nEvict == old(nEvict) + 1 && gEvictKey == ent(e).key && gEvictVal == ent(e).value
 //@   ensures  [noevict] c.onEvict == nil ==> nEvict == old(nEvict)
 //@
@@ -71,7 +113,7 @@ package simplewlru
 //@   modifies c.items[key], c.weight, lel[c.evictList], llen[c.evictList], lidx[*], lown[*], nEvict, gEvictKey, gEvictVal
 //@   ensures  cinv(c) && result == old(lhas(c, key)) && !lhas(c, key) && len(c.items) == old(len(c.items)) - ite(result, 1, 0)
 //@   ensures  [others] forall(k interface{}, k != key ==> lhas(c, k) == old(lhas(c, k)) && c.items[k] == old(c.items[k]))
-//@   ensures  [weight] c.weight == ite(result, (old(c.weight) - old(lwt(c, key))) % 18446744073709551616, old(c.weight))
+//@   ensures  [weight] c.weight == ite(result, old(c.weight) - old(lwt(c, key)), old(c.weight))
 //@   ensures  [evict] nEvict == old(nEvict) + ite(result && c.onEvict != nil, 1, 0) && (result && c.onEvict != nil ==> gEvictKey == key && gEvictVal == old(lval(c, key)))
 //@
 //@ // RemoveOldest removes the entry at the back of the list (the least recently used one)
@@ -83,7 +125,7 @@ package simplewlru
 //@   ensures  !result2 ==> result0 == nil && result1 == nil && len(c.items) == 0
 //@   ensures  [others] forall(k interface{}, k != result0 ==> lhas(c, k) == old(lhas(c, k)) && c.items[k] == old(c.items[k]))
 //@   ensures  [order] forall(i, 0, llen[c.evictList], lel[c.evictList][i] == old(lel[c.evictList][i]))
-//@   ensures  [weight] result2 ==> c.weight == (old(c.weight) - old(lwt(c, result0))) % 18446744073709551616
+//@   ensures  [weight] result2 ==> c.weight == old(c.weight) - old(lwt(c, result0))
 //@   ensures  [evict] nEvict == old(nEvict) + ite(result2 && c.onEvict != nil, 1, 0)
 //@
 //@ func (*Cache).removeOldest
@@ -93,7 +135,7 @@ package simplewlru
 //@   ensures  [removed] old(len(c.items)) > 0 ==> !lhas(c, old(ent(lel[c.evictList][llen[c.evictList] - 1]).key))
 //@   ensures  [others] forall(k interface{}, old(len(c.items)) == 0 || k != old(ent(lel[c.evictList][llen[c.evictList] - 1]).key) ==> lhas(c, k) == old(lhas(c, k)) && c.items[k] == old(c.items[k]))
 //@   ensures  [order] forall(i, 0, llen[c.evictList], lel[c.evictList][i] == old(lel[c.evictList][i]))
-//@   ensures  [weight] old(len(c.items)) > 0 ==> c.weight == (old(c.weight) - old(ent(lel[c.evictList][llen[c.evictList] - 1]).weight)) % 18446744073709551616
+//@   ensures  [weight] old(len(c.items)) > 0 ==> c.weight == old(c.weight) - old(ent(lel[c.evictList][llen[c.evictList] - 1]).weight)
 //@   ensures  [evict] nEvict == old(nEvict) + ite(old(len(c.items)) > 0 && c.onEvict != nil, 1, 0)
 //@
 //@ // normalize evicts from the back of the list until the cache is within its bounds: what remains is a prefix of the
@@ -123,6 +165,7 @@ package simplewlru
 //@ func (*Cache).Get
 //@   requires cinv(c)
 //@   modifies lel[c.evictList], lidx[*]
+//@   hint use wsum_move(old(lel[c.evictList]), lel[c.evictList], heapof(all(list.Element).Value), heapof(all(entry).weight), llen[c.evictList], old(lidx[c.items[key]]))
 //@   ensures  cinv(c) && result1 == lhas(c, key) && (result1 ==> result0 == lval(c, key) && lel[c.evictList][0] == c.items[key]) && (!result1 ==> result0 == nil)
 //@   ensures  [keep] !result1 ==> forall(i, 0, llen[c.evictList], lel[c.evictList][i] == old(lel[c.evictList][i]))
 //@   ensures  [order] result1 ==> forall(i, 0, old(lidx[c.items[key]]), lel[c.evictList][i + 1] == old(lel[c.evictList][i])) && forall(i, old(lidx[c.items[key]]) + 1, llen[c.evictList], lel[c.evictList][i] == old(lel[c.evictList][i]))
@@ -135,3 +178,51 @@ package simplewlru
 //@   loop 1 invariant 0 <= i && i <= llen[c.evictList] && len(keys) == llen[c.evictList] && arrfresh(keys, old(_alloc))
 //@   loop 1 invariant ent == ite(i < llen[c.evictList], lel[c.evictList][llen[c.evictList] - 1 - i], nil)
 //@   loop 1 invariant forall(j, 0, i, keys[j] == ent(lel[c.evictList][llen[c.evictList] - 1 - j]).key)
+//@
+//@ // Add: the key maps to the new value and becomes the most recently used entry; other entries are only ever evicted
+//@ // (from the least recently used end), never changed; afterwards the cache is within its bounds
+//@ func (*Cache).Add
+//@   requires cinv(c) && wsum(c) + weight <= 18446744073709551615
+//@   modifies c.items[*], c.weight, lel[c.evictList], llen[c.evictList], lidx[*], lown[*], nEvict, gEvictKey, gEvictVal, all(entry).value, all(entry).weight
+//@   at call simplewlru.Cache).normalize[1] hint assert lwf(c.evictList) && len(c.items) == llen[c.evictList]
+//@   at call simplewlru.Cache).normalize[1] hint assert forall(k interface{}, has(c.items, k) ==> inlist(c, c.items[k]))
+//@   at call simplewlru.Cache).normalize[1] hint assert forall(k interface{}, has(c.items, k) ==> typeis(c.items[k].Value, "*entry") && ent(c.items[k]) != nil && ent(c.items[k]).key == k)
+//@   at call simplewlru.Cache).normalize[1] hint assert forall(i, 0, llen[c.evictList], typeis(lel[c.evictList][i].Value, "*entry") && ent(lel[c.evictList][i]) != nil && has(c.items, ent(lel[c.evictList][i]).key) && c.items[ent(lel[c.evictList][i]).key] == lel[c.evictList][i])
+//@   at call simplewlru.Cache).normalize[1] hint use wsum_push(old(lel[c.evictList]), lel[c.evictList], heapof(all(list.Element).Value), heapof(all(entry).weight), old(llen[c.evictList])); use wsum_frame(old(lel[c.evictList]), old(heapof(all(list.Element).Value)), heapof(all(list.Element).Value), old(heapof(all(entry).weight)), heapof(all(entry).weight), old(llen[c.evictList]))
+//@   at call simplewlru.Cache).normalize[2] hint use wsum_nonneg(old(lel[c.evictList]), old(heapof(all(list.Element).Value)), old(heapof(all(entry).weight)), old(llen[c.evictList])); use wsum_move(old(lel[c.evictList]), lel[c.evictList], old(heapof(all(list.Element).Value)), old(heapof(all(entry).weight)), llen[c.evictList], old(lidx[c.items[key]])); use wsum_upd(lel[c.evictList], heapof(all(list.Element).Value), old(heapof(all(entry).weight)), llen[c.evictList], ent(c.items[key]), weight)
+//@   at call simplewlru.Cache).normalize[1] requires [weight_new] !old(lhas(c, key)) && c.weight == old(c.weight) + weight && lhas(c, key) && lval(c, key) == value && lwt(c, key) == weight && lel[c.evictList][0] == c.items[key] && len(c.items) == old(len(c.items)) + 1
+//@   at call simplewlru.Cache).normalize[2] requires [weight_upd] old(lhas(c, key)) && c.weight == old(c.weight) - old(lwt(c, key)) + weight && lhas(c, key) && lval(c, key) == value && lwt(c, key) == weight && lel[c.evictList][0] == c.items[key] && len(c.items) == old(len(c.items))
+//@   ensures  cinv(c) && within(c)
+//@   hint use wsum_nonneg(lel[c.evictList], heapof(all(list.Element).Value), heapof(all(entry).weight), llen[c.evictList])
+//@   ensures  [heavy] weight > old(c.maxWeight) ==> !lhas(c, key)
+//@   ensures  [key] lhas(c, key) ==> lval(c, key) == value && lwt(c, key) == weight && lel[c.evictList][0] == c.items[key]
+//@   ensures  [others] forall(k interface{}, k != key && lhas(c, k) ==> old(lhas(c, k)) && c.items[k] == old(c.items[k]) && lval(c, k) == old(lval(c, k)) && lwt(c, k) == old(lwt(c, k)))
+//@
+//@ func NewWithEvict
+//@   ensures  result1 == nil ==> fresh(result0) && cinv(result0) && len(result0.items) == 0 && result0.weight == 0 && result0.maxWeight == maxWeight && result0.maxSize == maxSize && result0.onEvict == onEvict
+//@   ensures  (result1 == nil) == (maxSize >= 0)
+//@ func New
+//@   ensures  result1 == nil ==> fresh(result0) && cinv(result0) && len(result0.items) == 0 && result0.weight == 0 && result0.maxWeight == maxWeight && result0.maxSize == maxSize && result0.onEvict == nil
+//@
+//@ // Purge: every entry is reported to the callback exactly once and the cache is empty
+//@ func (*Cache).Purge
+//@   requires cinv(c)
+//@   modifies c.items[*], c.weight, llen[c.evictList], nEvict, gEvictKey, gEvictVal
+//@   ensures  cinv(c) && len(c.items) == 0 && c.weight == 0
+//@   ensures  [evict] c.onEvict != nil ==> nEvict == old(nEvict) + old(len(c.items))
+//@   ensures  [noevict] c.onEvict == nil ==> nEvict == old(nEvict)
+//@   loop 1 modifies c.items[*], c.weight, nEvict, gEvictKey, gEvictVal
+//@   loop 1 invariant c != nil && c.evictList != nil && c.items != nil && c.items == atentry(c.items) && lwf(c.evictList)
+//@   loop 1 invariant forall(k interface{}, has(c.items, k) == (old(has(c.items, k)) && !_visited[k])) && forall(k interface{}, has(c.items, k) ==> c.items[k] == old(c.items[k]))
+//@   loop 1 invariant (c.onEvict != nil ==> nEvict == old(nEvict) + _k) && (c.onEvict == nil ==> nEvict == old(nEvict)) && 0 <= _k && _k <= old(len(c.items)) && len(c.items) == old(len(c.items)) - _k
+//@   loop 1 invariant forall(k interface{}, old(has(c.items, k)) ==> inlist(c, old(c.items[k])) && typeis(old(c.items[k]).Value, "*entry") && ent(old(c.items[k])) != nil && ent(old(c.items[k])).key == k)
+//@   loop 1 invariant forall(i, 0, llen[c.evictList], typeis(lel[c.evictList][i].Value, "*entry") && ent(lel[c.evictList][i]) != nil && old(has(c.items, ent(lel[c.evictList][i]).key)) && old(c.items[ent(lel[c.evictList][i]).key]) == lel[c.evictList][i] && ent(lel[c.evictList][i]).weight >= 0)
+//@   loop 1 invariant c.weight == wsumV(lel[c.evictList], heapof(all(list.Element).Value), heapof(all(entry).key), heapof(all(entry).weight), _visited, llen[c.evictList])
+//@   loop 1 hint assert forall(i, 0, llen[c.evictList], forall(j2, 0, llen[c.evictList], i != j2 ==> ent(lel[c.evictList][i]).key != ent(lel[c.evictList][j2]).key))
+//@   loop 1 hint use wsumV_none(lel[c.evictList], heapof(all(list.Element).Value), heapof(all(entry).key), heapof(all(entry).weight), _visited, llen[c.evictList])
+//@   loop 1 hint assert old(has(c.items, _key)) && !iterold(_visited)[_key]
+//@   loop 1 hint assert inlist(c, old(c.items[_key])) && ent(old(c.items[_key])).key == _key
+//@   loop 1 hint assert _visited == iterold(_visited)[_key := true]
+//@   loop 1 hint use wsumV_nonneg(lel[c.evictList], heapof(all(list.Element).Value), heapof(all(entry).key), heapof(all(entry).weight), iterold(_visited), llen[c.evictList]); use wsumV_visit(lel[c.evictList], heapof(all(list.Element).Value), heapof(all(entry).key), heapof(all(entry).weight), iterold(_visited), llen[c.evictList], lidx[old(c.items[_key])]); assert c.weight == iterold(c.weight) - ent(old(c.items[_key])).weight
+//@   loop 1 exithint assert forall(i, 0, llen[c.evictList], _visited[ent(lel[c.evictList][i]).key])
+//@   loop 1 exithint use wsumV_all(lel[c.evictList], heapof(all(list.Element).Value), heapof(all(entry).key), heapof(all(entry).weight), _visited, llen[c.evictList])
